@@ -118,9 +118,9 @@ func c10Build(loc string, mask int, kind string) *c10Case {
 	switch loc {
 	case "root":
 		c.files["Taskfile.yml"] = "version: '3'\n" + globals + "tasks:\n  caller:\n    cmds:\n      - task: t" + callVars + "\n" + taskDef("  ")
-	case "included", "nested":
+	case "included", "nested", "nested-inner-vars":
 		incStmt := "includes:\n  inc:\n    taskfile: ./inc.yml\n"
-		if has("incvars") {
+		if has("incvars") && loc != "nested-inner-vars" {
 			incStmt += "    vars:\n      V: " + val["incvars"] + "\n"
 		}
 		target := "inc:t"
@@ -128,6 +128,15 @@ func c10Build(loc string, mask int, kind string) *c10Case {
 		if loc == "nested" {
 			target = "inc:deep:t"
 			incfile += "includes:\n  deep: ./deep.yml\n"
+		}
+		if loc == "nested-inner-vars" {
+			// the outer include in the short form, the include statement's vars on the inner one
+			incStmt = "includes:\n  inc: ./inc.yml\n"
+			target = "inc:deep:t"
+			incfile += "includes:\n  deep:\n    taskfile: ./deep.yml\n"
+			if has("incvars") {
+				incfile += "    vars:\n      V: " + val["incvars"] + "\n"
+			}
 		}
 		incGlobals := ""
 		if has("incfile") {
@@ -381,7 +390,7 @@ func c10SpecialUnit() *Unit {
 
 func c10Units(tier string) []*Unit {
 	var us []*Unit
-	for _, loc := range []string{"root", "included", "nested"} {
+	for _, loc := range []string{"root", "included", "nested", "nested-inner-vars"} {
 		for _, kind := range []string{"literal", "template", "sh", "ref"} {
 			us = append(us, c10VarUnit(loc, kind))
 		}
